@@ -591,7 +591,7 @@ class Interstitial(object):
             # determine if we have a new mode or not
             found = False
             for (lamb0, L0) in lambdaL:
-                if np.isclose(lamb0, l):
+                if np.isclose(lamb0, l, atol=0):
                     L0 += L
                     found = True
             if not found:
